@@ -187,6 +187,7 @@ type fillScenario struct {
 	Threads [][]fillOp
 	Ticks   int
 	Bound   int
+	Fine    bool // statement-granularity scheduling points inside fillcache.go / localcache.go / group_cache.go
 }
 
 type fillObs struct {
@@ -202,7 +203,7 @@ func fillExecute(x *explore.Exec, sc fillScenario) (*directory, []*fillObs, *sch
 	var d *directory
 	var obs []*fillObs
 	var probs []c17Problem
-	s := sched.Run(x, func(s *sched.Sched) { s.TimerBudget = sc.Ticks }, func(s *sched.Sched) {
+	s := sched.Run(x, func(s *sched.Sched) { s.TimerBudget = sc.Ticks; s.FineGrained = sc.Fine }, func(s *sched.Sched) {
 		d = &directory{s: s, x: x, members: map[string][]string{"g": {"u1"}, "h": {"u2"}}, reported: map[string]map[bool]bool{}, failable: true}
 		version := 0
 		fc := groups.NewFillCache(func(g string) (groups.MemberSet, error) {
@@ -552,6 +553,8 @@ func c17Run(c *fw.Ctx) {
 		{Name: "fill/update-update-get", Threads: [][]fillOp{{up, get}, {up}, {get}}, Bound: b},
 		{Name: "fill/loop-loop-get", Threads: [][]fillOp{{lp, get}, {lp}}, Ticks: 1, Bound: b},
 		{Name: "fill/loop-update-stop", Threads: [][]fillOp{{lp}, {up, get}, {stop}}, Ticks: 1, Bound: b},
+		{Name: "fill/update-update-get-statement-granularity", Threads: [][]fillOp{{up, get}, {up}, {get}}, Bound: 2, Fine: true},
+		{Name: "fill/loop-loop-statement-granularity", Threads: [][]fillOp{{lp}, {lp}}, Ticks: 1, Bound: 1, Fine: true},
 	}
 	locals := []localScenario{
 		{Name: "local/orders-and-users", Threads: [][]localQ{{q("u1", "a", "b"), q("u1", "b", "a")}, {q("u2", "a", "b")}, {edit("a"), q("u1", "a")}}, Expiry: 1, Bound: b},
